@@ -2397,6 +2397,13 @@ class ActorGen:
                     p = T.Shadow.parent(p)
                 flags = sorted(set(g.choice(FLAG_SETS + [[]])) | {"read_only"})
                 self.plan = [{"op": "attempt", "actor": actor, "h": -1, "kind": g.choice(["sweep_M", "sweep_M", "g_delitem", "g_move"]), "arg": g.randrange(50)}]
+            dsets = sorted(q for q, kd in sh.nodes.items() if kd == "d")
+            if dsets and g.random() < 0.15:
+                # every flag combination that contains read_only, directly on a dataset, then every
+                # mutation once (the dataset methods only exist there: resize, write_direct, ...)
+                p = g.choice(dsets)
+                flags = sorted(set(g.choice(FLAG_SETS + [[]])) | {"read_only"})
+                self.plan = [{"op": "attempt", "actor": actor, "h": -1, "kind": "sweep_M", "arg": g.randrange(50)}]
             return {"op": "grant", "actor": actor, "path": p, "flags": flags, "container": g.random() < 0.5}
         if roll < 0.5:
             self.n[actor] += 1
